@@ -360,7 +360,22 @@ def check_scale(rec: core.Recorder, *, op: str, pre: dict, post: dict, factor, d
     if (divide or float_factor) and rd.kind != "f":
         rec.fail(prop="C13", monitor="C13.scale.dtype", op=op, symptom="float factor / division did not promote the contents to a float type",
                  diff=["dtype"], detail={**detail, "factor": repr(factor), "before": pre["dtype"], "after": post["dtype"]})
-    if not divide and not float_factor and np.dtype(pre["dtype"]).kind in "iu" and rd.kind not in "iu":
+    # (products that 64 bits cannot hold - the squared errors grow with the square of the factor - have no integer type to stay in:
+    # there the float result is the one that loses nothing)
+    beyond_int64 = False
+    if not divide and not float_factor and np.dtype(pre["dtype"]).kind in "iu":
+        try:
+            k = abs(int(factor))
+            biggest = max(int(np.abs(snap.arr_values(pre["frequencies"])).max(initial=0)) * k, int(snap.arr_values(pre["errors2"]).max(initial=0)) * k * k)
+            beyond_int64 = biggest > np.iinfo(np.int64).max
+        except (TypeError, ValueError, OverflowError):
+            beyond_int64 = False
+    if beyond_int64:
+        rec.skip("C13.scale.dtype", "products_beyond_int64")
+        if rd.kind in "iu":
+            rec.fail(prop="C13", monitor="C13.scale.dtype", op=op, symptom="integer histogram times integer factor stayed in an integer type that cannot hold the products",
+                     diff=["dtype"], detail={**detail, "factor": repr(factor), "before": pre["dtype"], "after": post["dtype"]})
+    elif not divide and not float_factor and np.dtype(pre["dtype"]).kind in "iu" and rd.kind not in "iu":
         rec.fail(prop="C13", monitor="C13.scale.dtype", op=op, symptom="integer histogram times integer factor left the integer types",
                  diff=["dtype"], detail={**detail, "factor": repr(factor), "before": pre["dtype"], "after": post["dtype"]})
     # C06 / C14: statistics under positive rescaling
